@@ -266,7 +266,7 @@ SCHEMA_RULE = ("A: every history of <= MaxLen public mutator calls of RSForm gen
                "cycling dependencies; 'kinds' every constituent kind incl. functions, calls, axioms, structures, ill-typed / unparsable / "
                "dangling definitions; 'names' renamings with prefix names, chains and mentions in definitions, conventions, references; "
                "'texts' X1, D1, D2 created by script, then every sequence of SetTerm / SetText / SetAlias-with-substitution / Erase that builds, re-points, renames and "
-               "breaks chains of references term <- term <- definition text, with other word forms than the nominal one and two references glued together; "
+               "breaks chains of references term <- term <- definition text, sets manual word forms (SetTermFormFor), with other word forms than the nominal one and two references glued together; "
                "'proj' X1, D1 := X1 x B(X1), D2 := Pr1(D1) by script, then definitions that differ only in the index of a projection), "
                "replayed on a real RSForm with the identifier hook; after the last call the projected state is compared with the "
                "specification's content and from-scratch Analysis, with a copy reloaded from JSON, and the C09 invariants are evaluated "
